@@ -8,9 +8,9 @@ def main():
     c = Check("C11", a.tier, a.seed)
     if a.replay:
         r = json.load(open(a.replay)); c.seed, c.tier = r["seed"], r["tier"]
-    ok_mk, log = c.make(["Props/C11.vo"])
-    thms = theorems_of("Props/C11.v")
-    assumptions = c.audit("Props.C11", thms) if ok_mk and thms else {}
+    ok_mk, log = c.make(props("C11")[2])
+    thms = theorems_of(*props("C11")[0])
+    assumptions = c.audit(props("C11")[1], thms) if ok_mk and thms else {}
     binary = c.build_harness("release")
     casefile = os.path.join(c.work, "cases.txt")
     n, dist, fails, samples, subjects, lengths, info_lines = 0, {}, [], [], set(), {}, []
@@ -60,7 +60,7 @@ def main():
         "rule": "STARKs defined through the public Stark trait (Fibonacci with boundary+transition constraints and public inputs, logUp permutation STARK, unconstrained STARK without quotient; lookup STARKs of the random family of harness/src/c09.rs with 2-4 looking columns, linear-combination and next-row columns and a different filter per column at constraint degree 3 (famlookup-*)) x FRI configurations (arity 2 / 4 / 16, cap heights 1-4, rate bits 1-2); plain mode: circuit built for the proof's size; variable-degree mode: ONE circuit sized for 2^max verifying proofs of every 2^d, min <= d <= max (2^3..2^8, 2^4..2^14, 2^4..2^10), prover and native verifier given the circuit's FRI parameters; per proof: valid, one altered element per class (local / next / quotient / auxiliary openings, query leaf, Merkle siblings, step evaluation, final-polynomial coefficient, public input, trace / quotient / auxiliary / commit caps, PoW witness), the degree argument off by one, a proof of another length, a proof without transcript padding, a shortened final polynomial. native = verify_stark_proof (+ degree argument = proof degree); outer = set_stark_proof_with_pis_target, witness generation, gate constraints re-evaluated on every row, prove, verify, public inputs re-exposed",
         "obligations": len(thms), "discharged": len([t for t in thms if assumptions.get(t, "").startswith("Closed")]),
         "theorems": {t: assumptions.get(t, "not checked") for t in thms},
-        "checker_cmd": "make -C coq Props/C11.vo && coqc Audit (Print Assumptions); harness c11",
+        "checker_cmd": "make -C coq Props/C11.vo Props/C11b.vo && coqc Audit (Print Assumptions); harness c11",
         "trusted_base": ["Coq 8.16.1 kernel (component theorem)", "harness/src/c11.rs, harness/src/c06.rs", "tools/spec_c11.py"],
     }
     c.finish("translation_validation", coverage, [
